@@ -53,6 +53,7 @@ type Env struct {
 	Keep bool
 	Res  *Result
 	W    *world.World
+	StepCap int64
 }
 
 type Scenario func(e *Env)
@@ -64,6 +65,12 @@ var curSched *simrt.Sched
 
 // RunOne executes one simulated run of prop in its own synctest bubble.
 func RunOne(t *testing.T, prop string, seed uint64, replay []int, tier string, keep bool) *Result {
+	return RunOneCapped(t, prop, seed, replay, tier, keep, 0)
+}
+
+// RunOneCapped is RunOne with a bound on scheduler steps (used while shrinking, where a
+// mutilated choice list can produce pathologically long runs).
+func RunOneCapped(t *testing.T, prop string, seed uint64, replay []int, tier string, keep bool, stepCap int64) *Result {
 	sc := Scenarios[prop]
 	if sc == nil {
 		return &Result{Prop: prop, Seed: seed, Infra: "unknown property " + prop}
@@ -93,7 +100,7 @@ func RunOne(t *testing.T, prop string, seed uint64, replay []int, tier string, k
 			n := simnet.New()
 			simnet.Install(n)
 			simrt.ResetPtrOrder()
-			e := &Env{T: t, C: cs, S: s, N: n, Tier: tier, Seed: seed, Keep: keep, Res: res}
+			e := &Env{T: t, C: cs, S: s, N: n, Tier: tier, Seed: seed, Keep: keep, Res: res, StepCap: stepCap}
 			defer func() {
 				if e.W != nil {
 					e.W.Teardown()
